@@ -278,16 +278,18 @@ class TransferCoordinator:
         :param msg: The message to attach to the cancellation
         :param exc_type: The type of exception to set for the cancellation
         """
+        should_announce_done = False
         with self._lock:
             if not self.done():
-                should_announce_done = False
                 logger.debug('%s cancel(%s) called', self, msg)
                 self._exception = exc_type(msg)
                 if self._status == 'not-started':
                     should_announce_done = True
                 self._status = 'cancelled'
-                if should_announce_done:
-                    self.announce_done()
+        # The done callbacks must not run while the lock is held: a callback
+        # may call back into this coordinator (cancel(), set_exception()).
+        if should_announce_done:
+            self.announce_done()
 
     def set_status_to_queued(self):
         """Sets the TransferFutrue's status to running"""
